@@ -89,6 +89,14 @@ CHECKS.update({
         design="3/C08"),
 })
 
+CHECKS.update({
+    "C20": dict(
+        technique="property-based testing: metamorphic oracle - inline vs by-reference renderings of the same IR (byte comparison of endpoint modules; behavioural comparison and class identity for schemas); fault insertion of malformed reference strings",
+        text="(a) drawn subsets of parameters, request bodies (through chains of 1-3 body references) and responses are moved to components under variously spelled keys and used by $ref: endpoint modules and diagnostics must be identical; (b) drawn subsets of schema $refs are replaced by inline copies: the same instances must behave identically through both packages and every reference to one schema must reach one class object; (c) nine kinds of malformed reference at parameter/body/response/schema positions must be diagnosed for the using item and leave everything else untouched.",
+        note="schema inlining is behavioural by the statement's own distinction; recursive components are never inlined; schema-position (c) reuses the C08 containment oracle",
+        design="3/C20"),
+})
+
 NOT_YET = {}
 
 def main():
